@@ -7,6 +7,8 @@ Open Scope string_scope.
 
 Lemma src_Channel_Empty : shape_Channel_Empty = expect_Channel_Empty.
 Proof. reflexivity. Qed.
+Lemma src_Channel_empty : shape_Channel_empty = expect_Channel_empty.
+Proof. reflexivity. Qed.
 Lemma src_Channel_exit : shape_Channel_exit = expect_Channel_exit.
 Proof. reflexivity. Qed.
 Lemma src_Channel_AddClient : shape_Channel_AddClient = expect_Channel_AddClient.
@@ -23,4 +25,4 @@ Lemma src_protocolV2_FIN : shape_protocolV2_FIN = expect_protocolV2_FIN.
 Proof. reflexivity. Qed.
 
 Lemma src_C08 : src_facts_C08.
-Proof. unfold src_facts_C08. repeat split; first [exact src_Channel_Empty | exact src_Channel_exit | exact src_Channel_AddClient | exact src_Channel_RemoveClient | exact src_Topic_DeleteExistingChannel | exact src_NSQD_DeleteExistingTopic | exact src_NSQD_GetTopic | exact src_protocolV2_FIN]. Qed.
+Proof. unfold src_facts_C08. repeat split; first [exact src_Channel_Empty | exact src_Channel_empty | exact src_Channel_exit | exact src_Channel_AddClient | exact src_Channel_RemoveClient | exact src_Topic_DeleteExistingChannel | exact src_NSQD_DeleteExistingTopic | exact src_NSQD_GetTopic | exact src_protocolV2_FIN]. Qed.
